@@ -59,10 +59,10 @@ func (self ValueOption) Fields() (map[string]*Value, *Interrupt) {
 		}),
 		"unwrap": NewValueBuiltinFunction(func(executor Executor, cancelCtx *context.Context, span errors.Span, args ...Value) (*Value, *Interrupt) {
 			if !self.IsSome() {
-				return nil, NewRuntimeErr(
-					"Called 'unwrap' on a 'null' option value",
-					ValueErrorKind,
+				// A catchable exception, like in the VM (`NewValueOptionUnwrapErr`).
+				return nil, NewThrowInterrupt(
 					span,
+					"Called 'unwrap' on a 'null' option value",
 				)
 			}
 			return self.Inner, nil
